@@ -226,20 +226,21 @@ Fixpoint write_dict (fx : bool) (f : file) (g : str) (l : list (str * item)) (ow
 Definition wrap8 (z : Z) : Z := (z + 128) mod 256 - 128.
 Definition raw (d : dset) : sval :=
   match d with DArr t sh x => VArr t sh x | DStrs l => VBytess l | DStr b => VBytes b end.
+Definition read_d (r : reader) (d : dset) : sval + err :=
+  match r, d with
+  | RNd, _ => inl (raw d)
+  | RNdUtf8, DStrs l => match opt_all (map utf8_dec l) with Some s => inl (VStrs s) | None => inr EValue end
+  | RInt, DArr t _ [z] => if dtype_eqb t TF64 then inr EOther else inl (VInt z)
+  | RNdInt8, DArr t sh x => if dtype_eqb t TF64 then inr EOther else inl (VArr TI8 sh (if dtype_eqb t TI8 then x else map wrap8 x))
+  | RNdInt, DArr t sh x => if dtype_eqb t TF64 then inr EOther else inl (VArr TI64 sh x)
+  | RUtf8, DStr b => match utf8_dec b with Some s => inl (VStr s) | None => inr EValue end
+  | _, _ => inr EOther
+  end.
 Definition read (r : reader) (f : file) (fld : str) : sval + err :=
   match lookup (split_path fld) f with
   | None => inr EOther                                    (* KeyError *)
   | Some NGroup => inr EType
-  | Some (NData d) =>
-    match r, d with
-    | RNd, _ => inl (raw d)
-    | RNdUtf8, DStrs l => match opt_all (map utf8_dec l) with Some s => inl (VStrs s) | None => inr EValue end
-    | RInt, DArr t _ [z] => if dtype_eqb t TF64 then inr EOther else inl (VInt z)
-    | RNdInt8, DArr t sh x => if dtype_eqb t TF64 then inr EOther else inl (VArr TI8 sh (if dtype_eqb t TI8 then x else map wrap8 x))
-    | RNdInt, DArr t sh x => if dtype_eqb t TF64 then inr EOther else inl (VArr TI64 sh x)
-    | RUtf8, DStr b => match utf8_dec b with Some s => inl (VStr s) | None => inr EValue end
-    | _, _ => inr EOther
-    end
+  | Some (NData d) => read_d r d
   end.
 (** h5py_File_read_dict: every member of the group, raw (strings stay bytes) *)
 Definition read_dict (f : file) (fld : str) : list (str * option sval) + err :=
